@@ -25,7 +25,7 @@ ASSUMPTIONS = ['reference: vlib/refmath.py + vlib/refpoly.py schoolbook arithmet
                'Python big ints (pow(x,-1,p) for coefficient inverses)',
                'b nonzero is a precondition of invert/powmod (docstrings); zero divisor must raise '
                'ZeroDivisionError in //, %, divmod']
-CASE_TIMEOUT = 300
+CASE_TIMEOUT = 45
 
 boot(numpy=False)
 from mpyc import gfpx  # noqa: E402
@@ -42,7 +42,7 @@ ALL_GROUPS = ('repr', 'ring', 'mixed', 'div', 'gcd', 'inv', 'pow', 'plainpow', '
 
 
 def budget(tier):
-    return dict(shards=16, examples=700 if tier == 'quick' else 20000)
+    return dict(shards=16, examples=500 if tier == 'quick' else 12000)
 
 
 # ------------------------------------------------------------------------------------------ plumbing
@@ -123,6 +123,8 @@ class Env:
             raise Bad(f'{what}: got {_show(got)}, reference {_show(want)}', fid)
 
     def group(self, name, fn):
+        if self.ctx.count.get(None):
+            return  # an unclassified failure is already recorded: report that one, skip consequential damage
         try:
             fn()
         except Bad as e:
@@ -543,7 +545,7 @@ def _divisors(p, D):
 def enumerate_cases(tier):
     for p, D in (EXH_QUICK if tier == 'quick' else EXH_THOROUGH):
         N = p ** (D + 1)
-        step = max(1, 1500 // N)
+        step = max(1, 700 // N)
         for lo in range(0, N, step):
             yield {'mode': 'exh', 'p': p, 'deg': D, 'lo': lo, 'hi': min(N, lo + step)}
     for lo in range(-4, 300, 38):
